@@ -31,6 +31,7 @@ K_ANNULUS = 'annulus-inner-ge-outer-accepted-on-assignment'
 K_IOR = 'meta-ior-bypasses-whitelist'
 K_UPDATE = 'meta-update-not-atomic'
 K_INSERT = 'regions-insert-accepts-non-region'
+K_INPLACE = 'rejected-augmented-assignment-on-quantity-changed-object'
 
 META_KEYS = ['background', 'comment', 'component', 'composite', 'corr', 'delete', 'edit', 'fixed', 'frame', 'highlite', 'include',
              'label', 'line', 'move', 'name', 'range', 'restfreq', 'rotate', 'select', 'source', 'tag', 'text', 'textrotate',
@@ -424,6 +425,27 @@ def run_history(case, obs, prng):
             check_invariant(obs, region, f'{p} assignment')
             continue
         kind = param_kind(cname, p)
+        if kind == 'size-sky' and prng.random() < 0.2:
+            # an augmented assignment with an operand that makes the value invalid: `region.radius *= 0`, `*= nan`, `*= -1`
+            import operator as _op
+            factor = prng.choice([0, float('nan'), -1.0, float('inf')])
+            fpb = S.fingerprint(region)
+            obs.count('augmented-assignments-to-invalid')
+            try:
+                cur = getattr(region, p)                   # exactly what `region.p *= factor` does: get, in-place operator, set
+                cur = _op.imul(cur, factor)
+                setattr(region, p, cur)
+                obs.violation('assign-accepts-invalid:' + kind, f'{cname}.{p} *= {factor!r} was accepted: {p} is now {getattr(region, p)!r}')
+            except REJECT:
+                obs.check(S.fingerprint(region) == fpb, K_INPLACE, f'{cname}.{p} *= {factor!r} raised but left {p} = {getattr(region, p)!r}', 'rejected-leaves-unchanged')
+            except Exception as exc:
+                obs.violation('assign-wrong-exception-type', f'{cname}.{p} *= {factor!r} raised {type(exc).__name__}: {exc}')
+            # a valid value again, so that the history can go on
+            object.__getattribute__(region, '__dict__')[p] = make_valid(kind, prng) if p not in ANNULUS_PAIRS and p not in ANNULUS_PAIRS.values() else getattr(S.build(base_spec(prng, cname)), p)
+            ok_, pair_ = annulus_ok(region)
+            if not ok_:
+                object.__getattribute__(region, '__dict__')[pair_[0]] = getattr(region, pair_[1]) * 0.5
+            continue
         if r < 0.55:
             v = make_valid(kind, prng)
             # keep annuli ordered: choose a valid value that respects inner < outer
